@@ -93,7 +93,26 @@ def run(tier, seed):
                       "%s w=%d hist=%s frame %d: dets=%s ret=%s %s" % (t["tc"], t["cfg"]["w"], t["hist"], fr, f["dets"], f["ret"], f.get("err", "")))
     if j["rejected_n"] > len(j["rejected"]):
         res.coverage["rejections_not_listed"] = j["rejected_n"] - len(j["rejected"])
-    res.coverage.update(evaluations=len(traces), distinct_nontrivial=len({(str(t["tc"]), t["cfg"]["w"], str(t["hist"])) for t in traces if len(t["hist"]) >= 2 and any(len(D) >= 2 for D in t["hist"])}),
+    # ---- whole inference sessions: FrameStream -> InferPlane -> Tracker (spec/System.tla) ----------------------
+    from loguru import logger
+    from harness.session import run_session
+    logger.disable("sleap_nn")
+    n_sess = 30 if tier == "quick" else 600
+    sess = []
+    pick = rng.sample(traces, min(n_sess, len(traces)))
+    for k, t in enumerate(pick):
+        kind = "topdown" if k % 2 == 0 else "bottomup"
+        o = run_session(kind, t["tc"], t["cfg"]["w"], t["hist"], random.Random(seed * 131 + k))
+        sess.append(dict(id=k, cfg=dict(t["cfg"]), frames=o["frames"], skipped_with_animals=o["skipped_with_animals"], kind=kind, tc=t["tc"], hist=t["hist"], raised=o["raised"]))
+    js = judge("Trace_System", [dict(id=x["id"], cfg=x["cfg"], frames=x["frames"], skipped_with_animals=x["skipped_with_animals"]) for x in sess],
+               cfg_text=TRACE_CFG, per_shard_min=20, timeout=900)
+    res.add_judge("Trace_System", js, "whole predict(make_labels=True) sessions with a real Tracker attached (top-down / bottom-up, ideal stubs)")
+    for cid, clause in js["rejected"]:
+        x = sess[int(cid)]
+        res.violation(dict(where="session:" + x["kind"], store=x["tc"]["store"], kind=clause.split("_at_frame_")[0]), clause,
+                      dict(session=True, kind=x["kind"], tc=x["tc"], w=x["cfg"]["w"], hist=x["hist"], frames=x["frames"]), "%s %s hist=%s %s" % (x["kind"], x["tc"], x["hist"], x["raised"]))
+    res.coverage["system_sessions"] = len(sess)
+    res.coverage.update(evaluations=len(traces) + len(sess), distinct_nontrivial=len({(str(t["tc"]), t["cfg"]["w"], str(t["hist"])) for t in traces if len(t["hist"]) >= 2 and any(len(D) >= 2 for D in t["hist"])}),
                         exhaustive=False,
                         rule="histories = maximal paths of TLC's dumped state graph of the scenario class (3 animals, w in {2,3}, 4-5 frames), sampled uniformly per configuration, each replayed on a fresh real Tracker with seeded detection permutations and sub-pixel drift; non-trivial = at least 2 frames and some frame with >= 2 animals",
                         spec_paths_replayed=total_paths)
@@ -107,6 +126,14 @@ def replay(rp, seed):
     res = Result("C10")
     c = rp["case"]
     rng = random.Random(seed)
+    if c.get("session"):
+        from harness.session import run_session
+        o = run_session(c["kind"], c["tc"], c["w"], c["hist"], rng)
+        cfg = dict(store=c["tc"]["store"], match=c["tc"]["match"], red=c["tc"]["red"], w=c["w"])
+        j = judge("Trace_System", [dict(id=0, cfg=cfg, frames=o["frames"], skipped_with_animals=o["skipped_with_animals"])], cfg_text=TRACE_CFG, shards=1)
+        for cid, clause in j["rejected"]:
+            res.violation(rp["key"], clause, c)
+        return res
     fr = observe(c["tc"], c["w"], c["hist"], rng)
     cfg = dict(store=c["tc"]["store"], match=c["tc"]["match"], red=c["tc"]["red"], w=c["w"])
     j = judge("Trace_Tracker", [dict(id=0, mode="C10", cfg=cfg, frames=[dict(dets=f["dets"], ret=f["ret"], raised=f["raised"]) for f in fr])], cfg_text=TRACE_CFG, shards=1)
